@@ -587,11 +587,88 @@ fn report<S: System>(run: &mut Run, sys: &S, sysname: &str, params: Value, found
     }
 }
 
+fn rop_job(op: &ROp) -> String {
+    match op {
+        ROp::Extend(n) => format!("e{n}"),
+        ROp::Fill(n) => format!("f{n}"),
+        ROp::Reader(n, g, t) => format!("r{n},{g},{t}"),
+        ROp::Within(s, l) => format!("w{s},{l}"),
+        ROp::Drop(n) => format!("d{n}"),
+        ROp::Reserve(n) => format!("v{n}"),
+        ROp::Clear => "c".to_string(),
+    }
+}
+
+/// every transition of the ring system up to `max_cap` as one line "op;op;…;op" (history + operation), for the
+/// Miri tier (`/verif/c04miri`)
+pub fn dump_jobs(path: &str, max_cap: usize, boundary_only: bool) -> i32 {
+    use std::io::Write;
+    let sys = RingSys { max_cap, boundary_only };
+    let mut seen: std::collections::HashMap<(usize, usize, usize), Vec<ROp>> = Default::default();
+    let mut queue: VecDeque<Vec<ROp>> = VecDeque::new();
+    seen.insert((0, 0, 0), vec![]);
+    queue.push_back(vec![]);
+    let mut out = std::io::BufWriter::new(std::fs::File::create(path).expect("jobs file"));
+    let mut n = 0u64;
+    while let Some(h) = queue.pop_front() {
+        let base = xplore::replay(&sys, &h).ok().expect("history replays");
+        if !sys.expand(&base) {
+            continue;
+        }
+        for op in sys.enabled(&base) {
+            let mut l = xplore::replay(&sys, &h).ok().expect("history replays");
+            if sys.step(&mut l, &op).is_err() {
+                continue; // native violations are reported by the native tier
+            }
+            let mut line: Vec<String> = h.iter().map(rop_job).collect();
+            line.push(rop_job(&op));
+            writeln!(out, "{}", line.join(";")).unwrap();
+            n += 1;
+            let k = sys.key(&l);
+            if !seen.contains_key(&k) {
+                let mut h2 = h.clone();
+                h2.push(op);
+                seen.insert(k, h2.clone());
+                queue.push_back(h2);
+            }
+        }
+    }
+    println!("dumped {n} jobs over {} states (cap <= {max_cap}, boundary_only = {boundary_only}) to {path}", seen.len());
+    0
+}
+
 pub fn main(tier: Tier, replay: Option<Value>) -> i32 {
     if let Some(r) = replay {
         return do_replay(&r["replay"]);
     }
+    if let Ok(spec) = std::env::var("C04_DUMP_JOBS") {
+        // "<path>:<max_cap>:<boundary 0|1>"
+        let f: Vec<&str> = spec.split(':').collect();
+        return dump_jobs(f[0], f[1].parse().unwrap(), f[2] == "1");
+    }
     let mut run = Run::new("C04", "model_checking", tier);
+    // results of the Miri tier, produced by ./check before this engine runs (thorough tier)
+    if let Ok(p) = std::env::var("C04_MIRI_RESULT") {
+        match std::fs::read_to_string(&p).ok().and_then(|s| serde_json::from_str::<Value>(&s).ok()) {
+            Some(v) => {
+                run.set("miri_jobs", v["jobs"].as_u64().unwrap_or(0));
+                run.set("miri_steps", v["steps"].as_u64().unwrap_or(0));
+                run.set("miri_max_cap", v["max_cap"].as_u64().unwrap_or(0));
+                run.set("miri_shards_ok", v["shards_ok"].as_u64().unwrap_or(0));
+                if let Some(errs) = v["errors"].as_array() {
+                    for e in errs {
+                        let text = e.as_str().unwrap_or("");
+                        let kind = text.lines().find(|l| l.contains("error:")).unwrap_or("miri error").trim().to_string();
+                        run.violation(Violation { identity: format!("miri:{}", crate::ev::truncate(&kind, 70)), what: format!("Miri reports undefined behaviour while replaying ring-buffer histories: {}", crate::ev::truncate(text, 900)), replay: json!({"miri": true, "output": crate::ev::truncate(text, 3000)}) });
+                    }
+                }
+                if v["machinery_error"].is_string() {
+                    run.machinery_error(format!("Miri tier: {}", v["machinery_error"].as_str().unwrap()));
+                }
+            }
+            None => run.machinery_error(format!("Miri result file {p} is unreadable")),
+        }
+    }
     let miri = cfg!(miri);
     let max_cap = std::env::var("C04_MAX_CAP").ok().and_then(|s| s.parse().ok()).unwrap_or(tier.pick(129, 257));
     let caps = Caps { max_wall_s: tier.pick(120.0, 3000.0), ..Caps::default() };
